@@ -635,3 +635,60 @@ def sink_contained(ctx, res):
         raise AnalysisError("_log_exception: no formatting of user objects "
                             "found")
     res.floor(2)
+
+
+
+# ---------------------------------------------------------------------------
+# C02.as-ctrait-idempotent
+
+@rule("C02.as-ctrait-idempotent", ["C02", "C10"],
+      "TraitType.as_ctrait can be called any number of times with the same "
+      "result: it never removes entries from the trait type's own metadata "
+      "(one trait type object serves several attributes, classes and "
+      "instance-trait clones; a popped option such as comparison_mode would "
+      "reach only the first CTrait)")
+def as_ctrait_idempotent(ctx, res):
+    repo = get_pyrepo(ctx)
+    n = 0
+    for rel in ("traits/trait_type.py", "traits/trait_types.py",
+                "traits/trait_handler.py", "traits/trait_handlers.py"):
+        if rel not in repo.modules:
+            continue
+        mod = repo.module(rel)
+        for qual, fn in mod.functions.items():
+            if not qual.endswith(".as_ctrait"):
+                continue
+            selfn = fn.args.args[0].arg
+            # names bound to the object's own metadata dictionary
+            own = set()
+            for a in ast.walk(fn):
+                if isinstance(a, ast.Assign) and len(a.targets) == 1 \
+                        and isinstance(a.targets[0], ast.Name):
+                    v = norm(a.value)
+                    if v.startswith(f"getattr({selfn}, '_metadata'") \
+                            or v == f"{selfn}._metadata":
+                        own.add(a.targets[0].id)
+            own_txt = own | {f"{selfn}._metadata"}
+            n += 1
+            res.instance(qual, mod.loc(fn), metadata_names=sorted(own))
+            bad = []
+            for x in ast.walk(fn):
+                if isinstance(x, ast.Call) and isinstance(x.func,
+                                                          ast.Attribute) \
+                        and x.func.attr in ("pop", "popitem", "clear") \
+                        and norm(x.func.value) in own_txt:
+                    bad.append(x)
+                if isinstance(x, ast.Delete) and any(
+                        isinstance(t, ast.Subscript)
+                        and norm(t.value) in own_txt for t in x.targets):
+                    bad.append(x)
+            res.oblige(not bad, f"{qual}:destructive", mod.loc(bad[0])
+                       if bad else mod.loc(fn),
+                       f"`{norm(bad[0])[:60] if bad else ''}` removes an "
+                       f"entry from the trait type's own metadata: the "
+                       f"second CTrait built from the same trait type "
+                       f"(`p = t; q = t`, a subclass re-using the "
+                       f"declaration) silently loses the option")
+    if n == 0:
+        raise AnalysisError("no as_ctrait method found")
+    res.floor(1)
